@@ -213,6 +213,12 @@ is_base_of(const CPPStructType *other) const {
  */
 bool CPPStructType::
 is_empty() const {
+  static std::set<const CPPStructType *> active;
+  TraitRecursionGuard guard(active, this);
+  if (!guard.entered()) {
+    return false;
+  }
+
   if (_type == T_union) {
     return false;
   }
@@ -266,6 +272,12 @@ is_polymorphic() const {
  */
 bool CPPStructType::
 is_standard_layout() const {
+  static std::set<const CPPStructType *> active;
+  TraitRecursionGuard guard(active, this);
+  if (!guard.entered()) {
+    return false;
+  }
+
   assert(_scope != nullptr);
 
   CPPVisibility member_vis = V_unknown;
